@@ -15,7 +15,11 @@ func (c *ctx) genLayout() {
 	sb.WriteString("namespace Ice.Gen.Layout\n\n")
 	fns := []string{"interim.convert", "mergeToWriter", "mergeSegmentBasesWriter", "newWithChunkMode",
 		"persistMergedRest", "persistMergedRestField", "writePostings", "persistFields", "Segment.WriteTo", "load",
-		"interim.writeDictsField", "interim.writeDictsTermField", "finishTerm", "mergeStoredAndRemap"}
+		"interim.writeDictsField", "interim.writeDictsTermField", "finishTerm", "mergeStoredAndRemap",
+		// the codec set-up: here the calls inside function literals (sync.Once bodies) count too,
+		// since that is where the encoder / decoder options are chosen
+		"ZSTDCompress", "ZSTDDecompress"}
+	intoLits := map[string]bool{"ZSTDCompress": true, "ZSTDDecompress": true}
 	var items []string
 	for _, k := range fns {
 		fd := c.funcs[k]
@@ -25,7 +29,7 @@ func (c *ctx) genLayout() {
 		}
 		var calls []string
 		ast.Inspect(fd.Body, func(n ast.Node) bool {
-			if _, ok := n.(*ast.FuncLit); ok {
+			if _, ok := n.(*ast.FuncLit); ok && !intoLits[k] {
 				return false
 			}
 			call, ok := n.(*ast.CallExpr)
